@@ -243,7 +243,10 @@ func TestVerifMain(t *testing.T) {
 	seenKeys := map[string]int{}
 	modelCases := 0
 	start := time.Now()
+	curPath := filepath.Join(outDir, "cur_case.txt")
 	for ci, c := range cases {
+		// if the process dies inside this case (a fault in the library is not recoverable) the driver finds it here
+		os.WriteFile(curPath, []byte("# origin "+c.origin+"\n"+strings.Join(c.ops, "\n")+"\n"), 0o644)
 		res := vSafeExec(p, c.ops)
 		if !res.noModel {
 			fmt.Fprintf(opsW, "case %d\n", ci)
